@@ -73,7 +73,9 @@ def finish(prop, tier, seed, obligations, t0, unit_info, level_if_all="proof", r
     failed = [o for o in mine if o["status"] == "failed"]
     undecided = [o for o in mine if o["status"] == "undecided"]
     discharged = [o for o in mine if o["status"] in ("discharged", "bounded-discharged")]
-    bounded = [o for o in mine if o["status"] == "bounded-discharged" or o.get("bounded")]
+    bounded_all = [o for o in mine if o["status"] == "bounded-discharged" or o.get("bounded")]
+    # a bounded stand-in whose function is also covered by a discharged unbounded obligation of this run is redundant
+    bounded = [o for o in bounded_all if not o.get("redundant_stand_in")]
     violations, known_hits = [], []
     for o in failed:
         rec = match_known(known, prop, o["id"])
@@ -138,7 +140,7 @@ def finish(prop, tier, seed, obligations, t0, unit_info, level_if_all="proof", r
         backends=backends, samples=samples,
         explanation=unit_info.get("explanation", "") + (" | level downgraded from %s: %d failed (%d known findings), %d undecided, %d bounded stand-ins" % (
             level_if_all, len(failed), len(known_hits), len(undecided), len(bounded)) if not all_ok else ""),
-        bounded_stand_ins=[dict(id=o["id"], bound=o.get("bound")) for o in bounded][:50],
+        bounded_stand_ins=[dict(id=o["id"], bound=o.get("bound"), redundant_with_unbounded_result=bool(o.get("redundant_stand_in"))) for o in bounded_all][:50],
         known_finding_ids=[o["id"] for (o, _r) in known_hits][:200],
         undecided_ids=[dict(id=o["id"], expected=bool(o.get("expected_undecided")), why=(o.get("detail") or "")[:160]) for o in undecided][:100],
         cache_hits=sum(1 for o in mine if o.get("cached")),
